@@ -12,7 +12,39 @@ def ch(x):
     return repr(chr(x)) if 32 <= x < 127 else "U+%04X" % x
 
 
-def partition_eval(prog, key, char_local, forced_for):
+def digit_map_body(prog):
+    """(body key, char local, radix local or None, result prefix): the function that holds the char -> digit map of
+    from_str_radix -- the digit closure itself, or a helper it calls (wherever the char comparisons live)."""
+    def char_consts(k):
+        n = 0
+        for blk in prog.bodies[k]["blocks"]:
+            for o in ir.operands_of_block(blk):
+                if o.get("o") == "const" and o.get("c") == "lit" and o.get("ty") == "char":
+                    n += 1
+        return n
+    cands = [CLOSURE]
+    v = prog.view(CLOSURE)
+    for _bi, t in v.calls():
+        n = ir.callee_name(t["fn"])
+        if n in prog.bodies and prog.bodies[n]["file"] == prog.bodies[CLOSURE]["file"] and n not in cands:
+            cands.append(n)
+    best = max(cands, key=char_consts)
+    b = prog.bodies[best]
+    cl = rl = None
+    for l in range(1, b.get("arg_count", 0) + 1):
+        t = b["locals"][l]["ty"]
+        if t.get("k") == "prim" and t.get("n") == "char" and cl is None:
+            cl = l
+        elif t.get("k") == "prim" and t.get("n") == "u64" and rl is None:
+            rl = l
+    out_t = b.get("output", {})
+    prefix = ()
+    if out_t.get("k") == "adt" and out_t.get("n") == "core::result::Result":
+        prefix = (("dc", 0), ("f", 0))      # Ok(Option<digit>)
+    return best, cl, rl, prefix
+
+
+def partition_eval(prog, key, char_local, forced_for, arg_iv=None, prefix=()):
     """Exact evaluation of a char -> Option<digit> closure on every cell of the partition of the char
     domain induced by the constants the closure compares its input with.
     Returns [(lo, hi, 'reject'|'ignore'|'digit', (dlo, dhi) or None)]."""
@@ -36,7 +68,9 @@ def partition_eval(prog, key, char_local, forced_for):
     out = []
     for i in range(len(cuts) - 1):
         lo, hi = cuts[i], cuts[i + 1] - 1
-        a = absint.Analysis(view, arg_intervals={char_local: (lo, hi)}, forced=forced)
+        aiv = dict(arg_iv or {})
+        aiv[char_local] = (lo, hi)
+        a = absint.Analysis(view, arg_intervals=aiv, forced=forced)
         reach = set(a.entry)
         rejected = False
         for b in reach:
@@ -51,8 +85,11 @@ def partition_eval(prog, key, char_local, forced_for):
             st = a.state_before_term(b)
             if st is None:
                 continue
-            discr = st.iv.get(("pl", 0, (("discr",),)))
-            payload = st.iv.get(("pl", 0, (("dc", 1), ("f", 0))))
+            d_, p_ = st.iv.get(("pl", 0, prefix + (("discr",),))), st.iv.get(("pl", 0, prefix + (("dc", 1), ("f", 0))))
+            if prefix and st.iv.get(("pl", 0, (("discr",),))) == (1, 1):
+                continue       # the Err(..) return of a helper: accounted for as `reject`
+            discr = d_ if discr is None else (min(discr[0], d_[0]), max(discr[1], d_[1])) if d_ is not None else None
+            payload = p_ if payload is None else ((min(payload[0], p_[0]), max(payload[1], p_[1])) if p_ is not None else payload)
         if discr == (0, 0):
             out.append((lo, hi, "ignore", None))
         elif discr == (1, 1) and payload is not None and payload[1] - payload[0] == hi - lo:
@@ -123,10 +160,15 @@ def alphabets(ctx, config="all"):
         rep.violation("closure-missing", "src/string.rs", "digit closure of from_str_radix not found (anchor moved): the "
                       "rule cannot be applied")
         return rep
-    b = prog.bodies[CLOSURE]
+    mkey, char_local, radix_local, prefix = digit_map_body(prog)
+    b = prog.bodies[mkey]
+    if char_local is None:
+        rep.violation("closure-missing", "src/string.rs", "no char parameter in %s: the rule cannot be applied" % mkey)
+        return rep
     n_cells = 0
     for label, le36, exp, size in (("radix<=36", True, expected_le36, 36), ("radix>36", False, expected_b64, 64)):
-        cells = partition_eval(prog, CLOSURE, 2, _forced_radix(le36))
+        arg_iv = {radix_local: ((2, 36) if le36 else (37, 64))} if radix_local is not None else None
+        cells = partition_eval(prog, mkey, char_local, _forced_radix(le36), arg_iv, prefix)
         n_cells += len(cells)
         image = set()
         for lo, hi, kind, pay in cells:
